@@ -56,6 +56,7 @@ import (
 	rewardstypes "github.com/comdex-official/comdex/x/rewards/types"
 	lendtypes "github.com/comdex-official/comdex/x/lend/types"
 	"github.com/comdex-official/comdex/x/liquidationsV2"
+	liqV2types "github.com/comdex-official/comdex/x/liquidationsV2/types"
 	vaulttypes "github.com/comdex-official/comdex/x/vault/types"
 )
 
@@ -70,6 +71,7 @@ type c15ErrCase struct {
 	prep              func(t *testing.T, a *chain.App, ctx sdk.Context, e *c15Env) (sdk.Context, string) // reachable steps; may move the clock
 	items             func(a *chain.App, ctx sdk.Context, e *c15Env) []c15Item // in the order the hook visits them (snapshot)
 	direct            func(a *chain.App, ctx sdk.Context, e *c15Env, it c15Item) error
+	before            func(a *chain.App, ctx sdk.Context) // what the hook does before it reaches the items (reference sweep only)
 }
 
 func c15Items(marker string, ids []uint64) []c15Item {
@@ -197,6 +199,144 @@ func c15PrepEsmVaultRedemption(t *testing.T, a *chain.App, ctx sdk.Context, e *c
 	return ctx, strings.Join(log, ",")
 }
 
+// the surplus (English) auction the V2 sweep starts on state p2s gets a bid; two hours later it is past
+// its end time.  The vault app has no token-mint record (it was created without genesis tokens), so
+// closing the auction moves the lot collector -> auction module -> bidder and the bid to the
+// token-mint module, and then BurnTokensForApp fails (auctions.go:388-391, tokenmint mint.go:116)
+func c15PrepEnglishClose(t *testing.T, a *chain.App, ctx sdk.Context, e *c15Env) (sdk.Context, string) {
+	liquidationsV2.BeginBlocker(ctx, abci.RequestBeginBlock{}, a.NewliqKeeper)
+	var log []string
+	n := 0
+	for _, au := range a.NewaucKeeper.GetAuctions(ctx) {
+		if au.AuctionType {
+			continue
+		}
+		n++
+		amt := au.DebtToken.Amount.Add(sdk.NewInt(1000))
+		fund(t, a, ctx, e.user1, sdk.NewCoins(sdk.NewCoin(au.DebtToken.Denom, amt)))
+		c, err, _ := execMsg(a, ctx, &auctionsV2types.MsgPlaceMarketBidRequest{AuctionId: au.AuctionId, Bidder: e.user1.String(), Amount: sdk.NewCoin(au.DebtToken.Denom, amt)})
+		if err != nil {
+			t.Logf("c15_english_bid: %v", err)
+		}
+		log = append(log, fmt.Sprintf("bid[%d]:%s", au.AuctionId, c))
+	}
+	log = append(log, fmt.Sprintf("english=%d", n))
+	ctx = ctx.WithBlockHeight(ctx.BlockHeight() + 1200).WithBlockTime(ctx.BlockTime().Add(2 * time.Hour))
+	return ctx, strings.Join(log, ",")
+}
+
+// what the closure of AuctionIterator runs for one auction (auctions.go:148-236), through the
+// exported functions it calls
+func c15AuctionStep(a *chain.App, ctx sdk.Context, id uint64) error {
+	au, err := a.NewaucKeeper.GetAuction(ctx, id)
+	if err != nil {
+		return nil
+	}
+	ended := ctx.BlockTime().After(au.EndTime)
+	if au.AuctionType {
+		st, found := a.EsmKeeper.GetESMStatus(ctx, au.AppId)
+		if found && st.Status {
+			if ended {
+				lv, _ := a.NewliqKeeper.GetLockedVault(ctx, au.AppId, au.LockedVaultId)
+				if lv.InitiatorType == "vault" {
+					return a.NewaucKeeper.TriggerEsm(ctx, au, lv)
+				}
+				return nil
+			}
+			return a.NewaucKeeper.UpdateDutchAuction(ctx, au)
+		}
+		if ended {
+			return a.NewaucKeeper.RestartDutchAuction(ctx, au)
+		}
+		return a.NewaucKeeper.UpdateDutchAuction(ctx, au)
+	}
+	if ended {
+		if au.ActiveBiddingId != 0 {
+			return a.NewaucKeeper.CloseEnglishAuction(ctx, au)
+		}
+		return a.NewaucKeeper.RestartEnglishAuction(ctx, au)
+	}
+	return nil
+}
+
+// two limit bids wait at the premium the dutch auctions will show at the hook's block time, each
+// large enough to close an auction alone
+func c15PrepTwoLimitBids(t *testing.T, a *chain.App, ctx sdk.Context, e *c15Env) (sdk.Context, string) {
+	var log []string
+	// dutch auctions that start 20% above the oracle price and fall to 84% of it within the hour (the
+	// parameters of the repository's own auction tests), set through the whitelisting setter a
+	// governance proposal executes; then the sweep liquidates the two fixture vaults
+	if w, found := a.NewliqKeeper.GetLiquidationWhiteListing(ctx, e.appHarbor); found {
+		w.DutchAuctionParam = &liqV2types.DutchAuctionParam{Premium: c15Dec("1.2"), Discount: c15Dec("0.7"), DecrementFactor: sdk.NewInt(1)}
+		a.NewliqKeeper.SetLiquidationWhiteListing(ctx, w)
+	}
+	liquidationsV2.BeginBlocker(ctx, abci.RequestBeginBlock{}, a.NewliqKeeper)
+	// the premium after the hook's own price update, looked up on a scratch branch
+	premium := sdk.NewInt(-1)
+	var first auctionsV2types.Auction
+	for step := 0; step < 14 && premium.IsNegative(); step++ {
+		scratch, _ := ctx.CacheContext()
+		_ = a.NewaucKeeper.AuctionIterator(scratch)
+		for _, au := range a.NewaucKeeper.GetAuctions(scratch) {
+			if au.AuctionType && au.CollateralTokenOraclePrice.GT(au.CollateralTokenAuctionPrice) && premium.IsNegative() {
+				pr := au.CollateralTokenOraclePrice.Sub(au.CollateralTokenAuctionPrice).Quo(au.CollateralTokenOraclePrice).Mul(sdk.NewDec(100)).TruncateInt()
+				if pr.IsPositive() && pr.LTE(sdk.NewIntFromUint64(auctionsV2types.MaxPremiumDiscount)) {
+					premium, first = pr, au
+				}
+			}
+		}
+		if premium.IsNegative() {
+			ctx = ctx.WithBlockHeight(ctx.BlockHeight() + 50).WithBlockTime(ctx.BlockTime().Add(5 * time.Minute))
+		}
+	}
+	if premium.IsNegative() {
+		return ctx, "no-discounted-auction"
+	}
+	debt := first.DebtToken
+	c, err, _ := execMsg(a, ctx, &liqV2types.MsgAppReserveFundsRequest{AppId: first.AppId, AssetId: first.DebtAssetId, TokenQuantity: sdk.NewCoin(debt.Denom, sdk.NewInt(5990000)), From: e.user1.String()})
+	if err != nil {
+		t.Logf("c15_reserve: %v", err)
+	}
+	log = append(log, "reserve:"+c)
+	for i, who := range []sdk.AccAddress{addrN(144), addrN(145)} {
+		amt := debt.Amount.MulRaw(2).AddRaw(int64(i))
+		fund(t, a, ctx, who, sdk.NewCoins(sdk.NewCoin(debt.Denom, amt)))
+		c, err, _ = execMsg(a, ctx, &auctionsV2types.MsgDepositLimitBidRequest{CollateralTokenId: first.CollateralAssetId, DebtTokenId: first.DebtAssetId,
+			PremiumDiscount: premium, Bidder: who.String(), Amount: sdk.NewCoin(debt.Denom, amt)})
+		if err != nil {
+			t.Logf("c15_limitbid: %v", err)
+		}
+		log = append(log, "limitbid:"+c)
+	}
+	log = append(log, "premium="+premium.String())
+	return ctx, strings.Join(log, ",")
+}
+
+// what the closure of LimitOrderBid runs for one auction (auctions.go:541-607): the bids waiting at the
+// auction's premium are placed one after the other on the auction AS READ BEFORE THE LOOP
+func c15LimitBidStep(a *chain.App, ctx sdk.Context, id uint64) error {
+	au, err := a.NewaucKeeper.GetAuction(ctx, id)
+	if err != nil || !au.CollateralTokenOraclePrice.GT(au.CollateralTokenAuctionPrice) {
+		return nil
+	}
+	premium := au.CollateralTokenOraclePrice.Sub(au.CollateralTokenAuctionPrice).Quo(au.CollateralTokenOraclePrice).Mul(sdk.NewDecFromInt(sdk.NewInt(100))).TruncateInt()
+	bids, found := a.NewaucKeeper.GetUserLimitBidDataByPremium(ctx, au.DebtAssetId, au.CollateralAssetId, premium)
+	if !found {
+		return nil
+	}
+	for _, b := range bids {
+		addr, _ := sdk.AccAddressFromBech32(b.BidderAddress)
+		if _, err := a.NewaucKeeper.PlaceDutchAuctionBid(ctx, au.AuctionId, addr.String(), b.DebtToken, au, true); err != nil {
+			return err
+		}
+		// (the bookkeeping of the limit-bid records that follows has no error path)
+		if b.DebtToken.Amount.Equal(au.DebtToken.Amount) {
+			return nil
+		}
+	}
+	return nil
+}
+
 var c15RewardSteps = []struct {
 	marker string
 	run    func(a *chain.App, ctx sdk.Context) error
@@ -248,6 +388,28 @@ var c15ErrCases = []c15ErrCase{
 		direct: func(a *chain.App, ctx sdk.Context, _ *c15Env, it c15Item) error {
 			return a.NewliqKeeper.CheckStatsForSurplusAndDebt(ctx, it.id>>32, it.id&0xffffffff)
 		}},
+	{unit: "v2.auction", hook: "auctionsV2.BeginBlocker", state: "p2s",
+		prep: c15PrepEnglishClose,
+		items: func(a *chain.App, ctx sdk.Context, _ *c15Env) []c15Item {
+			var ids []uint64
+			for _, au := range a.NewaucKeeper.GetAuctions(ctx) {
+				ids = append(ids, au.AuctionId)
+			}
+			return c15Items("auctionsV2/keeper.Keeper.AuctionIterator.func1", ids)
+		},
+		direct: func(a *chain.App, ctx sdk.Context, _ *c15Env, it c15Item) error { return c15AuctionStep(a, ctx, it.id) }},
+	{unit: "v2.limitbid", hook: "auctionsV2.BeginBlocker", state: "p1",
+		prep: c15PrepTwoLimitBids,
+		items: func(a *chain.App, ctx sdk.Context, _ *c15Env) []c15Item {
+			var ids []uint64
+			for _, au := range a.NewaucKeeper.GetAuctions(ctx) {
+				ids = append(ids, au.AuctionId)
+			}
+			return c15Items("auctionsV2/keeper.Keeper.LimitOrderBid.func1", ids)
+		},
+		// LimitOrderBid reads the auctions after AuctionIterator has run in the same hook
+		before: func(a *chain.App, ctx sdk.Context) { _ = a.NewaucKeeper.AuctionIterator(ctx) },
+		direct: func(a *chain.App, ctx sdk.Context, _ *c15Env, it c15Item) error { return c15LimitBidStep(a, ctx, it.id) }},
 	// the incentive hook: its steps in the order of x/rewards/abci.go (TriggerAndUpdateEpochInfos has no error result)
 	{unit: "rewards.hook", hook: "rewards.BeginBlocker", state: "p1",
 		prep: c15PrepLockerRewards,
@@ -306,6 +468,9 @@ func c15ErrorCase(t *testing.T, a *chain.App, tr *tracer, ec c15ErrCase, ctx0 sd
 	h := c15HookByName(ec.hook)
 	// 1. reference sweep: which items report failure, and had they written?
 	ref, _ := ctx0.CacheContext()
+	if ec.before != nil {
+		ec.before(a, ref)
+	}
 	items := ec.items(a, ref, env)
 	failed := make([]bool, len(items))
 	wrote := make([]bool, len(items))
